@@ -13,7 +13,7 @@ N = int(sys.argv[1]); SEED = int(sys.argv[2]); FILES = sys.argv[3:]
 ENV = dict(os.environ, GOFLAGS="-mod=mod", GOPROXY="off", GOSUMDB="off", GOTOOLCHAIN="local")
 MAP = {
  "stats.go": ["C01","C02","C03","C10","C11","C20"],
- "scope.go": ["C01","C04","C06","C07","C08","C09","C10","C11"],
+ "scope.go": ["C01","C03","C04","C05","C06","C07","C08","C09","C10","C11","C20"],
  "scope_registry.go": ["C01","C05","C06","C07","C08","C09","C11"],
  "key_gen.go": ["C05","C04"],
  "sanitize.go": ["C06","C04"],
